@@ -10,12 +10,12 @@ from vlib import fbits, bitsf
 
 LEVEL_TEXT = ('Lean 4 theorems about the executable blur model at ℂ/ℝ for all image shapes (square or not), extents, angles, pixel '
               'scales and oversampling factors: kernel and output have the image shape; each transfer function has gain 1 at zero '
-              'frequency; outputs are non-negative; zero extent gives the all-ones kernel and the identity on non-negative images; '
+              'frequency; outputs are non-negative; blurs commute with circular shifts (DFT shift theorem); zero extent gives the all-ones kernel and the identity on non-negative images; '
               'the renormalised (jitter, smear) output keeps the input total; only extent/pixelscale·oversample enters. The same '
               'model is run at doubles against the real functions on every check.')
-LEVEL_NOTE = ('Partial: "commutes with circular translation" and "equals the exact circular convolution when that is non-negative '
-              '(up to the unpaired Nyquist sample on even axes)" have no theorem; they are evaluated on the real code by the oracle '
-              'on every case. Trusted: np.fft.fft2/ifft2 are the plain DFT pair with origin at index 0, np.fft.fftfreq follows its '
+LEVEL_NOTE = ('Partial: "equals the exact circular convolution when that is non-negative (up to the unpaired Nyquist sample on even '
+              'axes)" is proved only conditionally on the convolution being real; Hermitian symmetry / the Nyquist remainder have no '
+              'theorem and are evaluated on the real code by the oracle on every case. Trusted: np.fft.fft2/ifft2 are the plain DFT pair with origin at index 0, np.fft.fftfreq follows its '
               'documented index map, np.sinc/np.exp/np.abs as named; rounding not modelled.')
 TECHNIQUE = 'Lean 4 proof (Finset sums, roots-of-unity orthogonality, sinc/exp at 0) over a generic executable model + differential correspondence'
 GEN = []
@@ -27,9 +27,10 @@ RULE = ('cases: non-negative images with rows, cols drawn independently from 1..
         'physical units (outside what the test-suite samples)')
 TRUSTED = ['np.fft.fft2 / ifft2 are the un-normalised DFT and its inverse with origin at index 0; np.fft.fftfreq(n) = [0,1,…,⌈n/2⌉-1,-⌊n/2⌋,…,-1]/n; '
            'np.sinc(x) = sin(πx)/(πx); np.meshgrid(x, y) puts x along columns (all modelled in Model/Blur.lean, observed through the correspondence)']
-UNPROVEN = ['blur_commutes_with_roll (DFT shift theorem on the model) — oracle only',
-            'equals_convolution_when_hermitian and the even-axis Nyquist remainder: that the output equals the exact circular '
-            'convolution when that is non-negative — oracle only (compared with an independent Fourier-domain convolution)']
+UNPROVEN = ['equals_convolution_when_hermitian: that c = ifft2(fft2(img)·K) is real (Hermitian symmetry of the transfer functions on odd '
+            'axes), the bound on the deviation from the unpaired Nyquist row/column on even axes, and the spatial-domain form of the '
+            'circular convolution — only the conditional nonneg_convolution_kept_partial is proved; the clause is evaluated by the '
+            'oracle against an independent Fourier-domain convolution on every case']
 ASSUMPTIONS = ['images are non-negative with positive total (an all-zero image makes jitter/smear return 0/0)', 'shapes at least 1x1',
                'pixelscale ≠ 0; smear angle is given (angle=None draws a random direction and is not covered)']
 
